@@ -134,6 +134,59 @@ Proof.
 Qed.
 Print Assumptions C12_redo_upload_create.
 
+(** Restarts that do not prune: OLLAMA_NOPRUNE (start-up = fixBlobs only; [recover_np]), or an unreadable manifest
+    somewhere in the store (then [recover] itself skips pruning).  Part records and -partial files then survive the
+    restart and the repeated pull resumes from them (Ops.download: record complete / incomplete / torn).  The crash
+    theorem and the redo theorem hold for the non-pruning restart as well. *)
+Theorem C12_crash_sound_noprune : forall size_of es o k,
+  guards size_of empty_store es ->
+  let s := ev_run size_of empty_store es in
+  op_guard size_of s o = true ->
+  let c := crash size_of s o k in
+  let s' := recover_np c in
+  Inv size_of s' /\ mans s' = mans c /\
+  (forall n, op_target s o <> Some n ->
+     mget n s' = mget n s /\
+     forall m l, mget n s = Some (Readable m) -> In l (all_layers m) -> bget (dhex (ldg l)) s' = bget (dhex (ldg l)) s).
+Proof.
+  intros size_of es o k Hg s Hgo c s'.
+  assert (HI : Inv size_of s) by (apply ev_run_inv; [apply Inv_empty | exact Hg]).
+  assert (HIc : Inv size_of c) by (apply crash_inv; assumption).
+  split; [apply recover_np_inv, HIc|]. split; [apply recover_np_mans|].
+  intros n Hn. destruct (prefix_frame size_of s o k n HI Hgo Hn) as [P1 P2]. fold c in P1, P2.
+  split; [unfold mget in *; unfold s'; rewrite recover_np_mans; exact P1|].
+  intros m l Hm Hl. unfold s'. rewrite (recover_np_frame size_of c n m l HIc); [apply (P2 m l); [apply mget_listed, Hm | exact Hl] | | exact Hl].
+  apply mget_listed. rewrite P1. exact Hm.
+Qed.
+Print Assumptions C12_crash_sound_noprune.
+
+Theorem C12_idempotent_redo_noprune : forall size_of es o k,
+  guards size_of empty_store es ->
+  let s := ev_run size_of empty_store es in
+  op_guard size_of s o = true -> has_unreadable s = false -> redo_guard size_of s o k = true ->
+  (match o with OCreate q => exists src, cr_base q = BFrom src | _ => True end) ->
+  let s1 := recover_np (crash size_of s o k) in
+  (forall n, mget n (exec size_of s1 o) = mget n (exec size_of s o)) /\
+  (snd (op_run size_of s1 o) = snd (op_run size_of s o) \/
+   (exists n, o = ODelete n) /\ snd (op_run size_of s1 o) = RNotFound /\ snd (op_run size_of s o) = ROk).
+Proof.
+  intros size_of es o k Hg s. apply (redo_general_noprune size_of). apply ev_run_inv; [apply Inv_empty | exact Hg].
+Qed.
+Print Assumptions C12_idempotent_redo_noprune.
+
+(** A part record is rewritten in place (writePart: open with O_TRUNC, then encode).  Unrepaired, a pull that finds an
+    empty (torn) record fails in Prepare and changes nothing — so every repetition fails, for as long as nothing prunes;
+    repaired (fixes/C12-torn-part-record.patch: unreadable records are discarded, the download starts over) it succeeds. *)
+Definition pr_store : store := MkStore [] [] [DPartial 1; DPartRec 1 0 PRTorn].
+Definition pr_layer : layer := MkLayer 0 (MkDigest true 1) 11.
+
+Theorem C12_torn_part_record_legacy_refuted :
+  download_gen (fun c => c + 10) true (init pr_store) pr_layer (Some 1) = (init pr_store, None) /\
+  (let (r, res) := download (fun c => c + 10) (init pr_store) pr_layer (Some 1) in
+   res = Some false /\ bget 1 (rs r) = Some 1 /\ debris (rs r) = []).
+Proof. split; vm_compute; auto. Qed.
+Print Assumptions C12_torn_part_record_legacy_refuted.
+
 (** The full statement — for every crash point — is false of the faithful model: manifests are written in place
     (create-truncate, then write), a kill between the two leaves an unreadable manifest that getExistingName does
     not see; repeating the operation under a name that differs in letter case writes a second manifest. *)
